@@ -40,13 +40,16 @@ TABLES = [
     ('T12a', 'Model._validate_association', ('C06',)),
     ('T12b', 'Model.add_association', ('C06', 'C05')),
     ('T13', 'LanguageGraph._get_associations_for_asset_type', ('C15',)),
+    ('T17', 'AttackerAttachment.get_entry_point_tuple', ('C05', 'C07')),
+    ('T18', 'AttackerAttachment.add_entry_point', ('C05', 'C07', 'C18')),
+    ('T19', 'AttackerAttachment.remove_entry_point', ('C05',)),
     ('T14', 'AttackGraphNode.is_compromised_by', ('C11', 'C12')),
     ('T15', 'Attacker.compromise', ('C11', 'C09')),
     ('T16', 'Attacker.undo_compromise', ('C11', 'C09')),
 ]
 STRIP_COPIES = {'T10'}
 # small pure methods that may be inlined into their callers
-INLINE_METHODS = [('AttackGraphNode', 'is_compromised_by'), ('AttackGraphNode', 'is_compromised'),
+INLINE_METHODS = [('AttackerAttachment', 'get_entry_point_tuple'), ('AttackGraphNode', 'is_compromised_by'), ('AttackGraphNode', 'is_compromised'),
                   ('AttackGraphNode', 'is_enabled_defense'), ('AttackGraphNode', 'is_available_defense')]
 # calls that stay opaque on both sides (they are tables of their own)
 OPAQUE = {'evaluate_viability', 'evaluate_necessity', 'propagate_viability_from_node',
